@@ -48,7 +48,7 @@ def main():
     subprocess.check_call(['git', '-C', '/repo', 'worktree', 'add', '-q', '--detach', wt, 'HEAD'])
     ran = []
     try:
-        rc, out = sh(['git', '-C', wt, 'apply', '--whitespace=nowarn', patch])
+        rc, out = sh(['git', '-C', wt, 'apply', '--3way', '--whitespace=nowarn', patch])
         ran.append('git apply -> %d' % rc)
         if rc != 0:
             print(sid, 'REJECTED: patch does not apply:', out[-400:])
@@ -110,7 +110,7 @@ def main():
                 subprocess.call(['git', '-C', '/repo', 'worktree', 'remove', '--force', wt2], stderr=subprocess.DEVNULL)
                 subprocess.check_call(['git', '-C', '/repo', 'worktree', 'add', '-q', '--detach', wt2, 'HEAD'])
                 try:
-                    rc_a, out_a = sh(['git', '-C', wt2, 'apply', '--whitespace=nowarn', ep])
+                    rc_a, out_a = sh(['git', '-C', wt2, 'apply', '--3way', '--whitespace=nowarn', ep])
                     rc_t, out_t = sh([PY, '-m', 'pytest', '-q', '-p', 'no:cacheprovider'], cwd=wt2,
                                      env=dict(os.environ, PYTHONDONTWRITEBYTECODE='1'))
                     rc_d, _ = sh([PY, '-B', demo], cwd='/tmp', env=dict(os.environ, PYTHONPATH=os.path.join(wt2, 'src'),
